@@ -96,6 +96,10 @@ type kctx struct {
 	retErr   bool // last result of the function is an error
 	noResult bool // function without results
 	fallible bool // some bind / guard / None was emitted
+
+	pkg         *pkgDecls // declarations of the package the kernel lives in (for inlining helpers)
+	recvType    string    // receiver type of the kernel function
+	inlineStack []string
 }
 
 func (k *kctx) refuse(n ast.Node, f string, a ...interface{}) {
@@ -623,6 +627,11 @@ func (k *kctx) call(x *ast.CallExpr, e *env, want int) []*value {
 			}
 			return one(&value{t: kn.resultType, term: k.bind("gen_" + f.Name + " " + strings.Join(a, " "))})
 		}
+		if fd := k.localFunc(f.Name); fd != nil {
+			if vs, ok := k.tryInline(fd, nil, x, e, want); ok {
+				return vs
+			}
+		}
 		return opaqueResults(k.prov(x, e), f.Name, opaqueMethods[f.Name], want)
 	case *ast.SelectorExpr:
 		if id, ok := f.X.(*ast.Ident); ok {
@@ -841,6 +850,13 @@ func (k *kctx) method(recv *value, name string, x *ast.CallExpr, e *env, want in
 	// opaque receiver (keeper, context, message, string ...)
 	if effects[name] {
 		return k.effect(name, x, e, want)
+	}
+	if recv.t == tOpaque && recv.prov == "recv" {
+		if fd := k.localMethod(name); fd != nil {
+			if vs, ok := k.tryInline(fd, recv, x, e, want); ok {
+				return vs
+			}
+		}
 	}
 	if fd := k.module.inlinable[name]; fd != nil && recv.t == tOpaque {
 		k.inline(fd, recv, x, e)
@@ -1204,6 +1220,34 @@ func (k *kctx) pureReassign(s *ast.IfStmt, e *env) bool {
 	return true
 }
 
+func (k *kctx) assume(desc string, nilCheck bool) {
+	if nilCheck {
+		return
+	}
+	if strings.HasPrefix(desc, "!") {
+		desc = desc[1:]
+	} else {
+		desc = "not " + desc
+	}
+	for _, a := range k.assumes {
+		if a == desc {
+			return
+		}
+	}
+	k.assumes = append(k.assumes, desc)
+}
+
+func (k *kctx) reassign(s *ast.IfStmt, c string, e *env) {
+	for _, st := range s.Body.List {
+		a := st.(*ast.AssignStmt)
+		l, r := a.Lhs[0].(*ast.Ident).Name, a.Rhs[0].(*ast.Ident).Name
+		lv, rv := e.vars[l], e.vars[r]
+		n := k.uniq(l)
+		k.emit("let " + n + " := if " + c + " then " + k.term(rv, a) + " else " + k.term(lv, a) + " in")
+		e.vars[l] = &value{t: lv.t, term: n}
+	}
+}
+
 func (k *kctx) ifStmt(s *ast.IfStmt, e *env, next cont) {
 	if s.Init != nil {
 		switch in := s.Init.(type) {
@@ -1229,13 +1273,7 @@ func (k *kctx) ifStmt(s *ast.IfStmt, e *env, next cont) {
 	if desc, nilCheck, ok := k.oracleCond(s.Cond, e); ok && fails {
 		// an external guard (a call reported an error, a record was not found ...): the generated definition
 		// describes the executions in which it does not fire; recorded as an assumption
-		if !nilCheck {
-			if strings.HasPrefix(desc, "!") {
-				k.assumes = append(k.assumes, desc[1:])
-			} else {
-				k.assumes = append(k.assumes, "not "+desc)
-			}
-		}
+		k.assume(desc, nilCheck)
 		elseBranch(e)
 		return
 	}
@@ -1250,14 +1288,7 @@ func (k *kctx) ifStmt(s *ast.IfStmt, e *env, next cont) {
 		return
 	}
 	if k.pureReassign(s, e) {
-		for _, st := range s.Body.List {
-			a := st.(*ast.AssignStmt)
-			l, r := a.Lhs[0].(*ast.Ident).Name, a.Rhs[0].(*ast.Ident).Name
-			lv, rv := e.vars[l], e.vars[r]
-			n := k.uniq(l)
-			k.emit("let " + n + " := if " + c + " then " + k.term(rv, a) + " else " + k.term(lv, a) + " in")
-			e.vars[l] = &value{t: lv.t, term: n}
-		}
+		k.reassign(s, c, e)
 		next(e)
 		return
 	}
